@@ -10,6 +10,7 @@ import CV.Opt
 import CV.Gen.Tables
 import CV.Cpp
 import CV.Lit
+import CV.Calc
 namespace CV
 
 structure LoadedProg where
@@ -234,6 +235,21 @@ def handle (st : DState) (line : String) : DState × String :=
   | "lit" :: bodies =>
     match bodies.mapM unhexStr with
     | some bs => (st, "ok " ++ " ".intercalate ((Lit.stored (bs.map String.toList)).map toString))
+    | none => (st, "badreq")
+  -- calc <tokens> : n<int> | i<rule>:<digitshex> | o<rule> | ( | )
+  | "calc" :: toks =>
+    let ts : Option (List Calc.Tok) := toks.mapM fun t =>
+      if t == "(" then some Calc.Tok.lp else if t == ")" then some Calc.Tok.rp
+      else if t.startsWith "o" then some (Calc.Tok.op (t.drop 1).toString)
+      else if t.startsWith "n" then ((t.drop 1).toString.toInt?).map fun v => Calc.Tok.num (.ok v)
+      else if t.startsWith "i" then
+        match (t.drop 1).toString.splitOn ":" with
+        | [rule, dh] => (unhexStr dh).map fun d => Calc.Tok.num (Calc.parseIntText rule d)
+        | _ => none
+      else none
+    match ts with
+    | some ts =>
+      (st, match Calc.evalTokens ts with | .ok v => "ok " ++ toString v | .err => "err" | .panic => "panic")
     | none => (st, "badreq")
   -- branch <line tokens>
   | "branch" :: toks =>
